@@ -272,6 +272,16 @@ func (m *MonC07) OnEvent(w *World, rec *StepRec) []*Violation {
 		m.own()
 		m.last[i] = cloneHS(hs)
 	}
+	// messages of a composite Ready+crash event were released before the crash: they are judged
+	// against the term this incarnation started from, not the next one's
+	for _, msg := range rec.Released {
+		if msg.GetFrom() != n.ID || msg.GetTerm() == 0 {
+			continue
+		}
+		if msg.GetTerm() < m.startTerm[i] {
+			out = append(out, &Violation{"C07", "acts-below-persisted-term", fmt.Sprintf("node %d released %s at term %d although it restarted from persisted term %d", n.ID, msg.GetType(), msg.GetTerm(), m.startTerm[i])})
+		}
+	}
 	if rec.Restarted && !w.Dead {
 		d := w.DiskHS(i)
 		if d == nil {
@@ -284,14 +294,6 @@ func (m *MonC07) OnEvent(w *World, rec *StepRec) []*Violation {
 		m.own()
 		m.last[i] = cloneHS(d)
 		m.startTerm[i] = d.GetTerm()
-	}
-	for _, msg := range rec.Released {
-		if msg.GetFrom() != n.ID || msg.GetTerm() == 0 {
-			continue
-		}
-		if msg.GetTerm() < m.startTerm[i] {
-			out = append(out, &Violation{"C07", "acts-below-persisted-term", fmt.Sprintf("node %d released %s at term %d although it restarted from persisted term %d", n.ID, msg.GetType(), msg.GetTerm(), m.startTerm[i])})
-		}
 	}
 	return out
 }
